@@ -57,16 +57,20 @@ def m_langid(c, binp, tier, light=False):
 def m_locale(c, binp, tier, modes=("loc", "ext"), light=False):
     for mode in modes:
         if light:
-            runs = [("%s-small4" % mode, dict(Depth=4, FullDepth=2, Small=True, Emit=True, Mode=mode))]
+            runs = [("%s-small4" % mode, dict(Depth=4, FullDepth=2, Alpha="small", Emit=True, Mode=mode))]
         else:
-            runs = [("%s-d4" % mode, dict(Depth=4, FullDepth=2, Small=False, Emit=True, Mode=mode)),
-                    ("%s-small5" % mode, dict(Depth=5, FullDepth=2, Small=True, Emit=True, Mode=mode))]
-        if tier == "thorough":
-            runs += [("%s-d5" % mode, dict(Depth=5, FullDepth=2, Small=False, Emit=True, Mode=mode))]
+            runs = [("%s-d4" % mode, dict(Depth=4, FullDepth=2, Alpha="full", Emit=True, Mode=mode)),
+                    ("%s-small5" % mode, dict(Depth=5, FullDepth=2, Alpha="small", Emit=True, Mode=mode))]
             if mode == "loc":
-                runs += [("%s-small7" % mode, dict(Depth=7, FullDepth=2, Small=True, Emit=True, Mode=mode))]
+                # deep: every extension shape needs few distinct tokens but many of them
+                runs += [("%s-tiny7" % mode, dict(Depth=7, FullDepth=2, Alpha="tiny", Emit=True, Mode=mode))]
+        if tier == "thorough":
+            runs += [("%s-d5" % mode, dict(Depth=5, FullDepth=2, Alpha="full", Emit=True, Mode=mode))]
+            if mode == "loc":
+                runs += [("%s-small7" % mode, dict(Depth=7, FullDepth=2, Alpha="small", Emit=True, Mode=mode)),
+                         ("%s-tiny9" % mode, dict(Depth=9, FullDepth=2, Alpha="tiny", Emit=True, Mode=mode))]
         for name, consts in runs:
-            c.add_model(run_model("%s-%s" % (c.prop, name), "MC_Locale", consts, LOC_INV, binp=binp, workers=12, timeout=7200))
+            c.add_model(run_model("%s-%s" % (c.prop, name), "MC_Locale", consts, LOC_INV, binp=binp, workers=12, timeout=10800))
 
 
 def m_subtags(c, binp, tier, light=False):
@@ -106,11 +110,12 @@ def m_matches(c, binp, tier, kind="match"):
 
 
 def m_cmp(c, binp, tier):
-    n = 1 if tier == "quick" else 2
-    routes = {1: 25, 2: 601}[n]
-    c.add_model(run_model("%s-cmp-routes%d" % (c.prop, n), "MC_Cmp", {"MaxLen": n},
-                          ["TextInjective", "ValuesOK", "AllRouteOpsSucceed", "EmitCase"], binp=binp, workers=12,
-                          expect_cases="distinct-%d" % routes))
+    routes = {1: 32, 2: 1 + 31 + 31 * 31}
+    runs = [(1, "default"), (1, "rich")] if tier == "quick" else [(2, "default"), (1, "rich"), (2, "rich")]
+    for n, start in runs:
+        c.add_model(run_model("%s-cmp-routes%d-%s" % (c.prop, n, start), "MC_Cmp", {"MaxLen": n, "Start": start},
+                              ["TextInjective", "ValuesOK", "AllRouteOpsSucceed", "EmitCase"], binp=binp, workers=12,
+                              expect_cases="distinct-%d" % routes[n], timeout=7200))
 
 
 def m_meta(c, binp, tier):
@@ -156,13 +161,23 @@ def traces(c, binp, driver, tier, quick_n=2500, thorough_n=12000, chunks_q=2, ch
     jobs = []
     for k in range(chunks):
         out = os.path.join(d, "%s-%s%s-%d.ndjson" % (c.prop, driver, tag, k))
-        info = engine.run_driver(binp, driver, c.seed * 1000 + k, n, out)
+        try:
+            info = engine.run_driver(binp, driver, c.seed * 1000 + k, n, out)
+        except engine.DriverDied as e:
+            # a crash or hang of the library inside a driver is a totality violation, with the pending call as witness
+            if c.prop == "C01":
+                c.dis.append({"props": ["C01"], "what": "driver-%s-died-rc%s" % (driver, e.rc), "source": "driver " + driver,
+                              "detail": {"pending_call": e.pending[:3000]}, "case": None})
+                continue
+            raise
         jobs.append((k, out, info))
     def one(job):
         k, out, info = job
         r = engine.validate_trace("%s-trace-%s%s-%d" % (c.prop, driver, tag, k), out)
         r["driver"] = info
         return r
+    if not jobs:
+        return
     with ThreadPoolExecutor(max_workers=min(len(jobs), 12)) as ex:
         for r in ex.map(one, jobs):
             c.add_trace(r)
@@ -230,6 +245,7 @@ def C05(tier, seed):
     m_locale(c, binp, tier, modes=("loc", "ext"), light=(tier == "quick"))
     m_langid(c, binp, tier, light=True)
     m_subtags(c, binp, tier, light=True)
+    m_parts(c, binp, tier)
     m_object(c, binp, tier, edges=True, hist=True, full=True, parts=("T", "X", "Id"))
     traces(c, binp, "hist", tier, quick_n=2000)
     traces(c, binp, "parse", tier, quick_n=1500)
@@ -505,7 +521,7 @@ def C16(tier, seed):
     cap = 400 if tier == "quick" else 2500
     # the specification decides which literal is well formed and what it means
     info1, li_cases = engine.collect_cases("C16-lits-li", "MC_LangId", dict(Depth=3, FullDepth=2, Small=True, Emit=True), LI_INV)
-    info2, loc_cases = engine.collect_cases("C16-lits-loc", "MC_Locale", dict(Depth=5, FullDepth=2, Small=True, Emit=True, Mode="loc"), LOC_INV)
+    info2, loc_cases = engine.collect_cases("C16-lits-loc", "MC_Locale", dict(Depth=5, FullDepth=2, Alpha="small", Emit=True, Mode="loc"), LOC_INV)
     info3, sub_cases = engine.collect_cases("C16-lits-sub", "MC_Subtags", dict(MaxLen=4, FullLen=2, Alpha="reduced", Emit=True), SUB_INV)
     for nm, info in (("C16-lits-li", info1), ("C16-lits-loc", info2), ("C16-lits-sub", info3)):
         c.models.append({"name": nm, "module": nm, "constants": {}, "tlc": info, "wall_s": 0, "disagreements": []})
